@@ -27,11 +27,54 @@ def run(ctx):
     ea = fb.find(ITP + "eval_ast")
     inner = fb.find(ITP + "eval_ast_error_no_location")
     eed = fb.find(ITP + "eval_expression_or_definition")
+    # decision table of eval_ast (machine.py): the inner evaluation is a symbolic event whose outcome is set per row; the
+    # location of the error eval_ast returns must be the error's own if it has one, else the statement's
+    from . import machine, absint
+    d_fb = 0
+    STMT_LOC, ERR_LOC = machine.some([10, 4]), machine.some([12, 9])
+    for row, inner_loc, want in (("error-without-location", machine.none(), STMT_LOC), ("error-with-location", ERR_LOC, ERR_LOC), ("ok", None, None)):
+        payload = object()
+        okv = object()
+
+        def icpt(mc, c, a, tt, g, inner_loc=inner_loc):
+            if c == inner.name:
+                if inner_loc is None:
+                    return machine.ok(okv)
+                e = absint.Enum(0, [payload, inner_loc])
+                e.name, e.adt = "Located", "error::Located"
+                return machine.err(e)
+            if c.endswith("parser::parser::Statement::location"):
+                return STMT_LOC
+            return machine.NOT
+        try:
+            res = machine.Machine(fb, intercept=icpt).run(ea, [absint.UNKNOWN, absint.UNKNOWN, absint.UNKNOWN])
+        except (absint.Stuck, absint.Loop) as e:
+            ctx.undecided("C15-fallback", "eval_ast/" + row, "cannot follow eval_ast (%s)" % e, where_of(ea))
+            continue
+        d_fb += 1
+        if want is None:
+            good = getattr(res, "name", None) == "Ok" and res.fields and res.fields[0] is okv
+            msg = "a successful evaluation is returned as %r" % (res,)
+        else:
+            loc = None
+            if getattr(res, "name", None) == "Err" and res.fields and isinstance(res.fields[0], absint.Enum) and len(res.fields[0].fields) == 2:
+                loc = res.fields[0].fields[1]
+            keeps = getattr(res, "name", None) == "Err" and res.fields and isinstance(res.fields[0], absint.Enum) and res.fields[0].fields[0] is payload
+            good = keeps and loc is not None and machine.key_of(loc) == machine.key_of(want)
+            msg = "an error whose own location is %s comes out of eval_ast with location %r (same error: %s); expected %s" % (
+                "absent" if row == "error-without-location" else "present", loc, bool(keeps),
+                "the statement's location" if row == "error-without-location" else "its own location")
+        ctx.inst("C15-fallback", "eval_ast/" + row, {"ok": bool(good)})
+        ctx.oblige(bool(good))
+        if not good:
+            ctx.report("C15-fallback", "eval_ast/" + row, msg, where_of(ea))
     p = Prov(ea)
     ors = [(b, t) for b, t in ea.calls() if callee_matches(t, "std::option::Option::or", "std::option::Option::or_else",
                                                            "std::option::Option::xor", "std::option::Option::and")]
     calls_inner = [(b, t) for b, t in ea.calls() if callee(t) == inner.name]
-    if len(calls_inner) != 1:
+    if d_fb >= 3:
+        pass          # decided by the table above
+    elif len(calls_inner) != 1:
         ctx.report("C15-fallback", "eval_ast/shape", "eval_ast does not call eval_ast_error_no_location exactly once", where_of(ea))
     elif len(ors) != 1 or not callee_matches(ors[0][1], "Option::or", "Option::or_else"):
         ctx.report("C15-fallback", "eval_ast/or", "the error location is not combined with the statement location by `or` "
@@ -62,9 +105,18 @@ def run(ctx):
     # choke point: callers
     for target, allowed in ((eed.name, {inner.name, ITP + "eval_library_definition"}), (inner.name, {ea.name}),
                             (ea.name, {ITP + "eval_root_ast"})):
+        callers_of = fb.callers("lib")
+
+        def ok_caller(name, depth=4):
+            # an allowed caller, or a helper all of whose own callers are allowed (a function extracted from one of them)
+            name = name.split("::{closure")[0]
+            if name in allowed:
+                return True
+            cs = {c.split("::{closure")[0] for c in callers_of.get(name, ())} - {name}
+            return depth > 0 and bool(cs) and all(ok_caller(c, depth - 1) for c in cs)
         for f, b, t in fb.call_sites(lambda t: callee(t) == target):
             ctx.inst("C15-fallback", "%s<-%s" % (target.rsplit("::", 1)[-1], f.name.rsplit("::", 1)[-1]))
-            if f.name not in allowed:
+            if not ok_caller(f.name):
                 ctx.report("C15-fallback", "bypass/%s/%s" % (target.rsplit("::", 1)[-1], f.name), "%s is called from %s, bypassing "
                            "the location fallback" % (target, f.name), where_of(f, t))
     for name in ("eval", "eval_program"):
@@ -211,17 +263,25 @@ def run(ctx):
     # ------------------------------------------------------------------ C15-position
     ctx.rule("C15-position", "tokens are located from the lexer's position counters (bookkeeping: see C06-position)")
     nx = fb.find("<parser::lexer::Lexer as std::iter::Iterator>::next")
-    pn = Prov(nx)
-    locs = [(b, t) for b, t in nx.calls() if callee_matches(t, "ToLocated::locate")]
-    ok = False
-    for b, t in locs:
-        s, _ = mir.trace_place(nx, t["args"][1])
-        agg = mir.trace_aggregate(nx, t["args"][1])
-        src = mir.trace_place(nx, agg["ops"][0])[0] if agg and agg["ops"] else s
-        ctx.inst("C15-position", "token-location", {"from": src})
-        if "location" in src:
-            ok = True
-    if not ok:
-        ctx.report("C15-position", "token-location", "tokens are not located from self.location", where_of(nx))
+    # token-location table (abstract run of the lexer, lexrun.py): every token of a two-line text carries the lexer's position
+    # just after its last character (line, 1-based column), so a location always lies on the line of its token
+    from . import lexrun
+    text = "ab (c\n  12 \"s\")\n#t"
+    spans = [("Identifier", 0, 1), ("LeftParen", 3, 3), ("Identifier", 4, 4), ("Integer", 8, 9), ("String", 11, 13), ("RightParen", 14, 14), ("Boolean", 16, 17)]
+    toks = lexrun.lex(fb, text)
+    if toks and toks[-1][0] in ("stuck", "panic"):
+        ctx.undecided("C15-position", "token-location", "cannot follow the lexer on the sample text (%s)" % (toks[-1][1],), where_of(nx))
+    else:
+        def pos_after(i):
+            line = 1 + text[:i + 1].count("\n")
+            col = i + 1 - (text[:i + 1].rfind("\n") + 1) + 1
+            return [line, col]
+        want = [(k, pos_after(e)) for k, b_, e in spans]
+        got = [(t[0], t[2]) for t in toks]
+        ctx.inst("C15-position", "token-location", {"tokens": got})
+        ctx.oblige(got == want)
+        if got != want:
+            ctx.report("C15-position", "token-location", "tokens of %r are located %s, expected each at the position after its last "
+                       "character: %s" % (text, got, want), where_of(nx))
     from .c06 import run as _c06  # noqa: F401  (position table itself is decided by C06-position)
     return EXPLANATION, NOT_DECIDED
